@@ -180,6 +180,12 @@ func exec1(line string) hx.Result {
 	if strings.HasPrefix(line, "S ") {
 		return execState(line)
 	}
+	if strings.HasPrefix(line, "W ") {
+		return execSweep(line)
+	}
+	if strings.HasPrefix(line, "U ") {
+		return execUsage(line)
+	}
 	c, mode, chain := parse(line)
 	ref := reference(c)
 	L := len(ref)
@@ -457,6 +463,9 @@ func gen(g *hx.Gen) {
 		}
 	}
 	g.Exhaustive(fmt.Sprintf("Load(Save(.)) on the complete iterator state at every position of every configuration n<=6 (every 5th for n=7), m<=3, against the extracted model (n<=%d in this tier)", full))
+	// every position of whole runs of n = 8, extreme internal states of n = 9, 10; usage patterns
+	genSweeps(g)
+	genUsage(g)
 	// sampled positions for the larger sizes, other moduli, and longer chains
 	type plan struct {
 		n     int
